@@ -549,6 +549,10 @@ class DestHandler:
         if self.states.step == TransactionStep.TRANSFER_COMPLETION:
             self._handle_transfer_completion()
         if self.states.step == TransactionStep.SENDING_FINISHED_PDU:
+            if self.packets_ready:
+                # PDUs generated earlier in this call (e.g. a NAK PDU) have to be retrieved first, the
+                # Finished PDU is generated with the next call.
+                return
             self._prepare_finished_pdu()
             self._handle_finished_pdu_sent()
         if self.states.step == TransactionStep.WAITING_FOR_FINISHED_ACK:
